@@ -97,6 +97,12 @@ CHECKS = {
         text="Real psyclone.psyad.tl2ad.generate_adjoint_str on a generated family of tangent-linear kernels (every loop header - unit/strided/negative/literal/zero-trip - crossed with every assignment form - increments, overwrites, negations, divisions by passive data, scalar accumulations, active temporaries, offsets - plus straight-line, branch-on-passive-data and multi-loop kernels). The TL routine and the adjoint are executed symbolically over exact reals with the active variables x (TL) and y (adjoint) and all passive coefficients as solver variables; for each extent n = 0..E (or the literal extent) the difference of the two inner products is normalised to a sum of monomials and z3 decides that it is zero for all values; it also decides that passive data is untouched and that the adjoint stays inside the declared bounds. Witnesses are replayed by a generated driver that evaluates both inner products with gfortran (bounds checking on).",
         note="Bounds: extents n = 0..4 (quick) / 0..5 (thorough) enumerated, literal extent 10; all values symbolic; exact arithmetic (rounding outside the claim). The PSyAD-generated test harness is not validated. Trusted: fparser2, z3, fsym, gfortran for replay.",
         ref="5/C19"),
+    "C20": dict(
+        level="translation_validation", engine="fsym",
+        technique="SMT translation validation of the generated LFRic PSy layer (executed symbolically with an LFRic stub contract) against the user guide's formula executed on the documented DoF range: z3 decides agreement of every documented argument for all field/scalar values and all DoF counts <= K",
+        text="The real LFRic generator is run on an algorithm file synthesised for every entry of BUILTIN_MAP under distributed memory on/off x annexed-DoF computation on/off x OpenMP variants, and on multi-built-in invokes over fields of three differently sized function spaces with LFRicLoopFuseTrans applied forwards and backwards. The oracle is read at run time from doc/user_guide/dynamo0p3.rst (signature and array-syntax formula of each built-in); the documented range is all DoFs (no DM), owned DoFs (DM, always for reductions) or owned+annexed (DM with COMPUTE_ANNEXED_DOFS). The generated invoke and the documented statements are executed symbolically over the same symbolic field data, scalars and DoF counts (0 <= owned <= annexed <= undf <= K); z3 decides that every field agrees at every DoF (updated inside the range, untouched outside) and every reduction result agrees. Witnesses are replayed by concrete re-execution and a plain-Python evaluation of the documented formula.",
+        note="Bounds: undf <= 3 (quick) / 4 (thorough) per function space (DoF loops unrolled), exact arithmetic. LFRic infrastructure is a stub contract (vlib/fsym/lfric.py): proxies alias fields, one data array per field, get_sum is the identity (one rank), halo calls do not touch data. setval_random and reprod reductions are outside the claim. Trusted: fparser2, z3, fsym, the stub contract, the doc parser.",
+        ref="5/C20"),
     "C25": dict(
         level="translation_validation", engine="fsym",
         technique="SMT over loop-nest summaries of the generated GOcean PSy layer: loop variables are Skolem constants bounded by the symbolically evaluated DO bounds; z3 decides 'visited(i,j) <=> configured region' and invariance under transformations for ALL grid sizes and all points (quantified queries)",
